@@ -39,9 +39,10 @@ func (x *Exec) atomicLoad(st *State, addr *Term, t types.Type) Value {
 		if li.Kind == "off" {
 			return IntLit(0)
 		}
-		return Select(st.heapArr(atomicKey(t)+li.Path, li.Sort), addr)
+		tm := Select(st.heapArr(atomicKey(t)+li.Path, li.Sort), addr)
+		x.assumeLeaf(st, li, tm)
+		return tm
 	})
-	x.assumeLoaded(st, v)
 	return v
 }
 
